@@ -113,6 +113,7 @@ Pull(it, who) ==
 \* The query, in a small language whose every form has a fixed jq text (lib side: checks/c16.py render()):
 \*   dot `.`   input   inputs   empty   lit(c)   var(n) `$n`   comma(l, r) `l, r`   collect(b) `[b]`
 \*   try(b, h) `try b catch h` (h a literal)   first(b)   limit(n, b)   drain(b) `(b | empty)`
+\*   tostream   fromstream(b)
 \* Ev(e, v, vars, it, n): run e on v, stop as soon as n outputs exist (label/break of first/limit).
 \*   -> [o |-> outputs, err |-> "none" | "err" | "oom", it]
 \* Evaluation order is jq's: left to right, depth first; there is no pipe, so no suspended generator
